@@ -294,4 +294,28 @@ Example C05_ex_upload_rand_panic :
   uf_show (frun 48 (uf_at 4 FErr) [PW uf_W] (finit uf_fs uf_cfg false)) = (true, 5, true, [uf_a; uf_b], [], 0).
 Proof. vm_compute. reflexivity. Qed.
 
+(* ACROSS runs counts can be lost after a fault (not a violation of the
+   theorems above, which are about one run and a week without report): *)
+(* a transient ReadFile error on a.v1.count (call 2): the week's report is
+   written from b alone, a stays; the NEXT run, fault-free, finds the report
+   and deletes a - its counts are in no report *)
+Example C05_ex_upload_rerun_drops_unread_file :
+  let y1 := frun 48 (uf_at 2 FErr) [PW uf_W] (finit uf_fs uf_cfg true) in
+  let y2 := frun 48 (fun _ => FOk) [PW uf_W] (finit (x_fs y1) uf_cfg true) in
+  map fst (f_local (x_fs y1)) = [local_name uf_W; uf_a] /\
+  option_map (fun v => match snd v with CRep (Some r) => map fst (r_files r) | _ => [] end)
+    (d_find (f_local (x_fs y1)) (local_name uf_W)) = Some [uf_b] /\
+  fdone y2 = true /\ map fst (f_local (x_fs y2)) = [local_name uf_W] /\
+  d_find (f_local (x_fs y2)) (local_name uf_W) = d_find (f_local (x_fs y1)) (local_name uf_W).
+Proof. vm_compute. repeat split. Qed.
+
+(* a short write of local.W.json: the next run, fault-free, deletes both count
+   files (W.json exists) and delivers W.json; local.W.json stays truncated *)
+Example C05_ex_upload_rerun_keeps_truncated_report :
+  let y1 := frun 48 (uf_at 12 FShort) [PW uf_W] (finit uf_fs uf_cfg true) in
+  let y2 := frun 48 (fun _ => FOk) [PW uf_W] (finit (x_fs y1) uf_cfg true) in
+  uf_show y2 = (true, 15, false, [local_name uf_W], [marker_name uf_W], 1) /\
+  d_find (f_local (x_fs y2)) (local_name uf_W) = Some (3, CRaw partial_id).
+Proof. vm_compute. split; reflexivity. Qed.
+
 End UploaderHalf.
